@@ -76,6 +76,8 @@ func main() {
 		cmdMinimize(os.Args[2:])
 	case "gen":
 		cmdGen(os.Args[2:])
+	case "hashes":
+		cmdHashes(os.Args[2:])
 	default:
 		fatal("unknown command %s", os.Args[1])
 	}
@@ -334,6 +336,9 @@ func brief(v interface{}) string {
 		return ""
 	case []byte:
 		return fmt.Sprintf("%q", string(x))
+	case h.Op:
+		b, _ := json.Marshal(x) // no pointers in the rendering
+		return string(b)
 	default:
 		return fmt.Sprintf("%+v", x)
 	}
@@ -374,4 +379,50 @@ func cmdMinimize(args []string) {
 	rp.Minimised = true
 	writeJSON(fs.Arg(1), rp)
 	fmt.Printf("minimised: %d ops, %d bars, %d choices, %d steps\n", o.CountOps(sc), len(sc.Bars), len(choices), hi.Res.Steps)
+}
+
+// cmdHashes prints, per run index, the trace hash, the number of steps and a
+// hash of the full history log: the determinism self-test compares these lines
+// across fresh processes, GOMAXPROCS values and worker counts.
+func cmdHashes(args []string) {
+	fs := flag.NewFlagSet("hashes", flag.ExitOnError)
+	prop := fs.String("prop", "", "")
+	tier := fs.String("tier", "quick", "")
+	seed := fs.Uint64("seed", 1, "")
+	count := fs.Int("count", 20, "")
+	fs.Parse(args)
+	def := o.Props[*prop]
+	if def == nil {
+		fatal("unknown property %s", *prop)
+	}
+	for i := 0; i < *count; i++ {
+		sc := generate(def, *seed, *tier, i)
+		hi := o.Execute(sc, nil, false, nil)
+		queue := []*h.Scenario{}
+		if def.Expand != nil {
+			vs := def.Expand(sc, hi, o.NewRand(sc.Seed^0x5bd1e995), *tier)
+			if len(vs) > 3 {
+				vs = vs[:3]
+			}
+			queue = vs
+		}
+		fmt.Printf("%d base %s %d %s %d\n", i, hex(hi.Res.TraceHash), hi.Res.Steps, hex(logHash(hi)), len(def.Judge(hi)))
+		for k, v := range queue {
+			hv := o.Execute(v, nil, false, nil)
+			fmt.Printf("%d v%d %s %d %s %d\n", i, k, hex(hv.Res.TraceHash), hv.Res.Steps, hex(logHash(hv)), len(def.Judge(hv)))
+		}
+	}
+}
+
+func logHash(hi *o.Hist) uint64 {
+	hsh := uint64(1469598103934665603)
+	mix := func(s string) {
+		for i := 0; i < len(s); i++ {
+			hsh = (hsh ^ uint64(s[i])) * 1099511628211
+		}
+	}
+	for _, e := range hi.Log {
+		mix(fmt.Sprintf("%d|%d|%s|%d|%d|%d|%s|%s;", e.Step, e.G, e.Kind, e.ID, e.A, e.B, e.S, brief(e.V)))
+	}
+	return hsh
 }
